@@ -140,6 +140,39 @@ CLAIMED["C16"] = dict(
     technique="Coq proof (permutation invariance via canonical sorting) + vm_compute correspondence + hash-seed subprocess differential",
     design_ref="DESIGN.md section 5 C16")
 
+CLAIMED["C01"] = dict(
+    category="proof",
+    text="C01_legal_is_the_definition: the boolean legality test evaluated inside Coq on every run of the correspondence and by the monitor at every "
+         "observation point equals the property's five clauses, for all machines and configurations; legality is a property of the active set and is "
+         "preserved by snapshot/restore; unhandled events, action lists and aborted transitions keep the configuration; what a transition exits is "
+         "confined to active proper descendants of its domain (to the target's region under a parallel domain). The universal invariant is REFUTED "
+         "for the code at HEAD by a kernel-checked witness (C01_invariant_refuted = recorded finding F5, transition targeting the machine root). "
+         "Partial: preservation of legality by exit + entry for all other target shapes is decided by the correspondence (exhaustive small trees x all "
+         "source/target pairs x both engines x pure API, legality evaluated at every hook / subscriber / snapshot point) and not by induction.",
+    technique="Coq proof (boolean reflection of the legality definition, frame lemmas, refutation witness) + vm_compute correspondence (K-macro) + monitor",
+    design_ref="DESIGN.md section 5 C01")
+CLAIMED["C03"] = dict(
+    category="proof",
+    text="C03_phases_and_event_identity: for ALL machines, transitions, events, states and both engines, the record of a successful external transition "
+         "is an exit segment containing no entry, then the transition's actions with neither, then an entry segment containing no exit, and every "
+         "user action in all three - including states reached by default descent - received the causing event; states are left in the order of the "
+         "exit list, which is deepest first; the entry path is outermost first; the exit set is confined to the transition domain (sibling regions "
+         "untouched); targetless transitions run actions only. 'Never entered while active' is REFUTED at HEAD by a kernel-checked witness "
+         "(C03_enter_once_refuted = recorded finding F21). Partial: +1/0/-1 accounting per processed event is decided by the monitor and the "
+         "correspondence on exhaustive small trees with actions on every entry and exit.",
+    technique="Coq proof (log-segment invariants through entry / exit / actions; sortedness) + vm_compute correspondence (K-macro) + monitor",
+    design_ref="DESIGN.md section 5 C03")
+CLAIMED["C05"] = dict(
+    category="proof",
+    text="C05_microstep_agrees: for every machine whose invoked services are registered, every event and every pair of interpreter states that agree "
+         "on configuration, history and context, processing the event on the sync and on the async engine yields states that again agree on those, "
+         "and raises the same error or none - a relational (two-run) proof through selection, exit, actions, entry, done events, scheduling and "
+         "rollback, i.e. through every place where the implementation duplicates code per engine. The pure engine runs no action and schedules "
+         "nothing by definition. The ordered action log differs between engines in model and code alike where the code differs (recorded findings "
+         "F12, F15a-d, F25); log agreement and agreement with the pure API are decided by the three-way differential run and K-pure.",
+    technique="Coq proof (relational simulation between engine instantiations of the model) + vm_compute correspondence per engine (K-macro, K-pure) + three-way differential",
+    design_ref="DESIGN.md section 5 C05")
+
 PENDING_REASON = "not claimed yet: the check for this property is still being built in this round (DESIGN.md section 5 has the plan)"
 
 
